@@ -1,0 +1,22 @@
+//go:build verif
+
+package calcium
+
+import (
+	"context"
+
+	"github.com/projecteru2/core/types"
+)
+
+// Verification hooks (build tag `verif` only): the multi-lock helpers of lock.go
+// with a caller-supplied critical section.  Nothing here changes behaviour.
+
+// VerifFWithWorkloadsLocked is withWorkloadsLocked (locks taken, not ignored).
+func (c *Calcium) VerifFWithWorkloadsLocked(ctx context.Context, ids []string, f func(context.Context, map[string]*types.Workload) error) error {
+	return c.withWorkloadsLocked(ctx, false, ids, f)
+}
+
+// VerifFWithNodesPodLocked is withNodesPodLocked.
+func (c *Calcium) VerifFWithNodesPodLocked(ctx context.Context, nf *types.NodeFilter, f func(context.Context, map[string]*types.Node) error) error {
+	return c.withNodesPodLocked(ctx, nf, f)
+}
